@@ -282,9 +282,17 @@ def process_template(path, crate, repo, gen=None, depth=0):
                         gen.rule_counts['D4'] = gen.rule_counts.get('D4', 0) + 1
                         break
                     except ExtractionError:
-                        if '::' not in mod_try:
+                        if mod_try == '':
+                            # not in the module chain: a constant imported with `use` -- accept a crate-wide UNIQUE definition
+                            hits = crate.find_const_anywhere(cname) if hasattr(crate, 'find_const_anywhere') else []
+                            if len(hits) == 1:
+                                txt_c = re.sub(r'\bpub\(crate\)\s+', 'pub ', X.item_text(X.strip_attrs(hits[0][1])))
+                                for rid, pat, rep in X.GLOBAL_RULES:
+                                    txt_c = re.sub(pat, rep, txt_c)
+                                gen.auto_consts[cname] = (txt_c, f'/repo {hits[0][0]}::{cname}')
+                                gen.rule_counts['D4'] = gen.rule_counts.get('D4', 0) + 1
                             break
-                        mod_try = mod_try.rsplit('::', 1)[0]
+                        mod_try = mod_try.rsplit('::', 1)[0] if '::' in mod_try else ''
             for k, v in log.counts.items():
                 gen.rule_counts[k] = gen.rule_counts.get(k, 0) + v
             sha = hashlib.sha256(X.join(fn['sig'] + fn['body']).encode()).hexdigest()
